@@ -290,13 +290,15 @@ def _build_configs(names):
 
     glyphs = sources(stick=True)  # a shape sticks out of the viewBox: clip_to_viewbox is observable in every font of a pair
     srcs_text = [(f"emoji_u{'_'.join('%04x' % c for c in g.cps)}.svg", g.svg()) for g in glyphs]
-    cfgs = [dict(CONFIGS[n], output_file=f"{n}.ttf") for n in names]
+    # output names with an extra dot that share the part before the first dot (Font.base.ttf, Font.noclip.ttf, ...): every
+    # per-configuration intermediate has to be named after the *whole* stem
+    cfgs = [dict(CONFIGS[n], output_file=f"Font.{n}.ttf") for n in names]
     w = cli.mkscratch("c20p")
     try:
         r = run_cli(w, cfgs, [], srcs_text)
         out = {}
         for n in names:
-            f = w / "build" / f"{n}.ttf"
+            f = w / "build" / f"Font.{n}.ttf"
             out[n] = hashlib.sha256(f.read_bytes()).hexdigest() if f.exists() else None
         return r.returncode, (r.stderr or "")[-300:], out
     finally:
